@@ -281,18 +281,4 @@ theorem cp_verdict_false_of_neg {n : Nat} (D : Fin n → ℝ) (atol : ℝ) (i : 
     (h : D i < -atol) : ¬ cpVerdict D atol :=
   fun hv => absurd (hv i) (not_le.mpr h)
 
-/-- **Source pin** for the wiring around the generated contractions: `U.conj(), basis, U` into the
-first einsum, generic expansion unless `btype == 'GGM' and d > 12`, `hermitian=basis.isherm`;
-`reshape(superoperator.shape)` of the Choi contraction; verdicts `(D >= -atol).all` with the default `atol = basis._atol·max(1, max|D|)`;
-projector `1 - |Ω⟩⟨Ω|` for the conditional test. -/
-theorem superop_source_shape :
-    Gen.superoperator_liouville_representation_0_args = ["U.conj()", "basis", "U"] ∧
-    Gen.superoperator_liouville_to_choi_0_args = ["superoperator", "basis", "basis"] ∧
-    Gen.liouvilleBranchTest = "basis.btype == 'GGM' and basis.d > 12 and (basis == _b.Basis.ggm(basis.d))" ∧
-    Gen.liouvilleBody = "U = np.asanyarray(U) ; conjugated_basis = np.einsum('...ba,ibc,...cd->...iad', U.conj(), basis, U, optimize=['einsum_path', (1, 2), (0, 1)]) ; if basis.btype == 'GGM' and basis.d > 12 and (basis == _b.Basis.ggm(basis.d)): return _b.ggm_expand(conjugated_basis, hermitian=basis.isherm) else: return _b.expand(conjugated_basis, basis, hermitian=basis.isherm)" ∧
-    Gen.liouvilletochoiBody = "choi = np.einsum('...ij,jba,icd->...acbd', superoperator, basis, basis, optimize=['einsum_path', (0, 1), (0, 1)]).reshape(superoperator.shape) ; return choi" ∧
-    Gen.liouvilleisCPBody = "choi = liouville_to_choi(superoperator, basis) ; D, V = nla.eigh(choi) ; if atol is None: atol = basis._atol * np.maximum(1, np.abs(D).max(axis=-1, keepdims=True)) ; CP = (D >= -atol).all(axis=-1) ; if return_eig: return (CP, (D, V)) ; return CP" ∧
-    Gen.liouvilleiscCPBody = "d2 = superoperator.shape[-1] ; d = int(np.sqrt(d2)) ; Omega = np.zeros(d2, dtype=float) ; Omega[::d + 1] = 1 / np.sqrt(d) ; Omega = np.multiply.outer(Omega, Omega) ; Q = np.eye(Omega.shape[-1]) - Omega ; choi = liouville_to_choi(superoperator, basis) ; D, V = nla.eigh(Q @ choi @ Q) ; if atol is None: atol = basis._atol * np.maximum(1, np.abs(D).max(axis=-1, keepdims=True)) ; cCP = (D >= -atol).all(axis=-1) ; if return_eig: return (cCP, (D, V)) ; return cCP" :=
-  ⟨rfl, rfl, rfl, rfl, rfl, rfl, rfl⟩
-
 end FFVerif.C15
